@@ -2,6 +2,8 @@
 // and the Python generators (tools/vals.py).
 //   u n t f  #<number>  "<str>"  B<int>  S  F  D<ms>  R  [a,b]  {"k":v}  M[k:v,...]  E[a,b]  Y<Kind>[1,2]
 
+import { types as T } from "node:util";
+
 const TYPED = {
   Uint8Array, Uint8ClampedArray, Uint16Array, Uint32Array, Int8Array, Int16Array, Int32Array,
   Float32Array, Float64Array, BigInt64Array, BigUint64Array,
@@ -149,23 +151,18 @@ export function showVal(v, depth = 0) {
     case "function":
       return "F";
   }
-  if (v instanceof Date) return "D" + v.getTime();
-  if (v instanceof RegExp) return "R";
+  if (T.isDate(v)) return "D" + v.getTime();
+  if (T.isRegExp(v)) return "R";
   if (Array.isArray(v)) return "[" + Array.from(v, (x) => showVal(x, depth + 1)).join(",") + "]";
-  if (v instanceof Map)
+  if (T.isMap(v))
     return "M[" + [...v].map(([k, x]) => showVal(k, depth + 1) + ":" + showVal(x, depth + 1)).join(",") + "]";
-  if (v instanceof Set) return "E[" + [...v].map((x) => showVal(x, depth + 1)).join(",") + "]";
-  if (ArrayBuffer.isView(v)) return "Y" + v.constructor.name + "[" + Array.from(v, (x) => x.toString()).join(",") + "]";
+  if (T.isSet(v)) return "E[" + [...v].map((x) => showVal(x, depth + 1)).join(",") + "]";
+  if (T.isTypedArray(v)) return "Y" + v.constructor.name + "[" + Array.from(v, (x) => x.toString()).join(",") + "]";
   const proto = Object.getPrototypeOf(v);
-  const tag = proto === Object.prototype ? "" : proto === null ? "<nullproto>" : "<proto>";
-  return (
-    tag +
-    "{" +
-    Object.keys(v)
-      .map((k) => esc(k) + ":" + showVal(v[k], depth + 1))
-      .join(",") +
-    "}"
-  );
+  // a replaced prototype is printed as the pseudo-entry "<proto>" (same convention as Model/Parse.v obj_assign)
+  const entries = Object.keys(v).map((k) => esc(k) + ":" + showVal(v[k], depth + 1));
+  if (proto !== Object.prototype) entries.unshift(esc("<proto>") + ":" + showVal(proto, depth + 1));
+  return "{" + entries.join(",") + "}";
 }
 
 export function deepFreeze(v, seen = new Set()) {
